@@ -12,6 +12,25 @@ os.environ.setdefault('PONYORM_PONY_VERIF', '1')
 from vlib import common
 
 
+def _deterministic_reexec():
+    """Pony's entity instances hash by id(), so the iteration order of its internal sets of objects - and with it the
+    order in which it processes objects - depends on memory addresses.  Address-space randomisation and string hash
+    randomisation are switched off for every check process, so that a run (and the replay of a witness) is reproducible.
+    Best effort: without `setarch` the check runs as it is."""
+    if os.environ.get('VERIF_DETERMINISTIC') == '1': return
+    import shutil, platform
+    env = dict(os.environ, VERIF_DETERMINISTIC='1', PYTHONHASHSEED='0')
+    exe = shutil.which('setarch')
+    cmd = [sys.executable] + sys.argv
+    if exe:
+        import subprocess
+        try: ok = subprocess.run([exe, platform.machine(), '-R', 'true'], capture_output=True, timeout=20).returncode == 0
+        except Exception: ok = False
+        if ok: cmd = [exe, platform.machine(), '-R'] + cmd
+    try: os.execvpe(cmd[0], cmd, env)
+    except OSError: os.environ['VERIF_DETERMINISTIC'] = '1'
+
+
 def main():
     ap = argparse.ArgumentParser()
     ap.add_argument('pid')
@@ -63,4 +82,5 @@ def main():
 
 
 if __name__ == '__main__':
+    _deterministic_reexec()
     sys.exit(main())
